@@ -430,6 +430,7 @@ func inlineOverlay(dir string, known map[string]bool) map[string][]byte {
 					if ai != len(call.Args) {
 						return // f(g()) multi-value forwarding
 					}
+					var pre strings.Builder // declarations that live in the scope of the helper's own body
 					if len(binds) > 0 {
 						// two stages: every argument is evaluated in the caller's scope (into a
 						// temporary of the parameter's declared type) before any parameter name
@@ -442,16 +443,16 @@ func inlineOverlay(dir string, known map[string]bool) map[string][]byte {
 						}
 						for i, bd := range binds {
 							if bd.name == "_" {
-								fmt.Fprintf(&b, "_ = %s; ", tmp[i])
+								fmt.Fprintf(&pre, "_ = %s; ", tmp[i])
 								continue
 							}
-							fmt.Fprintf(&b, "var %s %s = %s; _ = %s; ", bd.name, bd.typ, tmp[i], bd.name)
+							fmt.Fprintf(&pre, "var %s %s = %s; _ = %s; ", bd.name, bd.typ, tmp[i], bd.name)
 						}
 					}
 					if namedRes {
 						for _, r := range results {
 							if r.name != "" && r.name != "_" {
-								fmt.Fprintf(&b, "var %s %s; _ = %s; ", r.name, r.typ, r.name)
+								fmt.Fprintf(&pre, "var %s %s; _ = %s; ", r.name, r.typ, r.name)
 							}
 						}
 					}
@@ -522,9 +523,9 @@ func inlineOverlay(dir string, known map[string]bool) map[string][]byte {
 					body := string(applyEdits(hsrc[bodyStart:bodyEnd], beds))
 					hline := p.Fset.PositionFor(h.decl.Body.Lbrace, true)
 					if tail {
-						fmt.Fprintf(&b, "\n//line %s:%d\n{%s\n}; }\n", hline.Filename, hline.Line, body)
+						fmt.Fprintf(&b, "\n//line %s:%d\n{ %s%s\n}; }\n", hline.Filename, hline.Line, pre.String(), body)
 					} else {
-						fmt.Fprintf(&b, "\n//line %s:%d\n%s: for {%s\n", hline.Filename, hline.Line, id, body)
+						fmt.Fprintf(&b, "\n//line %s:%d\n%s: for { %s%s\n", hline.Filename, hline.Line, id, pre.String(), body)
 						// falling off the end (no results): run every defer
 						b.WriteString(deferText(h.decl.Body.Rbrace))
 						fmt.Fprintf(&b, "break %s }; }\n", id)
